@@ -4,6 +4,8 @@ package mon
 
 import (
 	"fmt"
+	"sort"
+	"strings"
 
 	"filippo.io/edwards25519/verifct"
 	"verifharness/gen"
@@ -128,7 +130,8 @@ func C03(c *Ctx) {
 		// determinism of the tracer itself: same input, same trace
 		again := traceOf(&ops[oi], &refIn[oi])
 		if traceHash(again) != traceHash(refTr[oi]) || len(again) != len(refTr[oi]) {
-			c.Inconclusive("tracer not deterministic for " + ops[oi].name)
+			c.Tally("start-up trace of an entry point changed on its second run (non-input state such as a pool or a lazily built table): " + ops[oi].name)
+			refTr[oi] = again
 		}
 		if c.Worker == 0 {
 			c.Res.Extra["trace:"+ops[oi].name] = fmt.Sprintf("%d events, hash %016x", len(refTr[oi]), traceHash(refTr[oi]))
@@ -163,15 +166,63 @@ func C03(c *Ctx) {
 			c.Sample(op.name, map[string]any{"op": op.name, "assignment": k, "class": in.Class, "events": len(tr), "trace-hash": fmt.Sprintf("%016x", traceHash(tr)), "identical-to-reference-assignment": true})
 			continue
 		}
+		// A difference from the reference trace recorded at start-up is attributed to the
+		// secret values only if it is reproducible with the two assignments interleaved now
+		// (reference, this, reference, this): state that is not an input - a pooled buffer
+		// that exists after the first call, a lazily built table - legitimately changes a
+		// trace between the first call of a process and later ones.
+		same := func(x, y []verifct.Event) bool { return len(x) == len(y) && traceHash(x) == traceHash(y) }
+		r1 := traceOf(op, &refIn[oi])
+		t1 := traceOf(op, &in)
+		r2 := traceOf(op, &refIn[oi])
+		t2 := traceOf(op, &in)
+		c.Tally("differences from the start-up reference trace re-examined with interleaved runs")
+		if !same(r1, r2) || !same(t1, t2) {
+			// not reproducible for a fixed input: find the functions whose events vary with
+			// non-input state (same input, different trace), drop their events from all four
+			// traces and compare what is left; if that is still not reproducible, give up
+			vol := map[string]bool{}
+			dv := append(diverge(r1, r2), diverge(t1, t2)...)
+			for _, d := range dv {
+				vol[d.Func] = true
+			}
+			strip := func(t []verifct.Event) []verifct.Event {
+				o := t[:0:0]
+				for _, e := range t {
+					if !vol[verifct.SiteFuncs[e.Site]] {
+						o = append(o, e)
+					}
+				}
+				return o
+			}
+			r1, r2, t1, t2 = strip(r1), strip(r2), strip(t1), strip(t2)
+			names := make([]string, 0, len(vol))
+			for f := range vol {
+				names = append(names, f)
+			}
+			sort.Strings(names)
+			if len(dv) >= 6 || !same(r1, r2) || !same(t1, t2) {
+				c.Inconclusive("trace of " + op.name + " is not reproducible for a fixed input (it depends on state other than the inputs): the two-run comparison decides nothing for this entry point")
+				continue
+			}
+			c.Inconclusive("trace of " + op.name + " depends on non-input state inside " + strings.Join(names, ", ") + ": events of these functions are excluded from the comparison for this entry point")
+		}
+		if same(r1, t1) {
+			c.Tally("trace differed from the start-up reference only through non-input state (not a violation): " + op.name)
+			refTr[oi] = r1 // steady state from here on
+			continue
+		}
+		tr = t1
+		refTrNow := r1
 		class := in.Class
 		if hasZeroXLimbs(&in) != hasZeroXLimbs(&refIn[oi]) {
 			class = "point-input-with-all-zero-X-limbs"
 		}
-		for _, d := range diverge(refTr[oi], tr) {
+		for _, d := range diverge(refTrNow, tr) {
 			c.FailAt("leakage trace depends on secret values", d.Func, class, map[string]any{
 				"op": op.name, "assignment": k, "class": in.Class, "reference-class": refIn[oi].Class,
 				"first-difference-at-event": d.Index, "site": d.Site, "function": d.Func, "reference-event": d.A, "this-event": d.B,
-				"trace-lengths": []int{len(refTr[oi]), len(tr)}})
+				"trace-lengths": []int{len(refTrNow), len(tr)}, "reproduced": "reference/this/reference/this interleaved: both reproducible, different"})
 		}
 	}
 }
